@@ -19,7 +19,7 @@ Proof. destruct o; reflexivity. Qed.
 Lemma behav_norm : forall x x', validate_simple x = Some x' -> wf_simple x -> x' = x.
 Proof. intros x x' H Hwf. unfold wf_simple in Hwf. congruence. Qed.
 
-Definition guard_simple (x : simple) : bool := no_knots_simple x && hidden_default_simple x.
+Definition guard_simple (x : simple) : bool := hidden_default_simple x.
 
 (* validation looks at dtype / constraints of a linear term only through term_level_ok; with the constructor defaults it
    succeeds whenever it did with the hidden values *)
@@ -37,23 +37,29 @@ Proof.
     { rewrite Hlam in Ev. unfold term_level_ok in *. repeat (apply andb_prop in Ev; destruct Ev as [Ev ?]).
       cbn. repeat (apply andb_true_intro; split); auto. }
     rewrite Ev'. eexists. split; [reflexivity |]. reflexivity.
-  - (* spline: rebuilt without knots; validation does not look at them *)
-    destruct s as [f n o lam pen con ba dt b kn vb]. unfold guard_simple in Hg. cbn in Hg.
-    unfold build_simple, info_simple. cbn -[validate_simple vnum_list vostr_list vnums vostrs oz_of_v v_of_oz].
-    rewrite vnum_list_of, !vostr_list_of, oz_of. cbn -[validate_simple].
+  - (* spline: rebuilt with the user's knots if any, without knots otherwise; validation does not look at them *)
+    destruct s as [f n o lam pen con ba dt b kn vb].
     unfold wf_simple, validate_simple in Hwf. cbn in Hwf.
     match type of Hwf with (if ?c then _ else _) = _ => destruct c eqn:Ev; [| discriminate] end.
-    injection Hwf as Hlam. unfold validate_simple. cbn. rewrite Hlam.
-    unfold spline_level_ok in *. cbn in *. rewrite Hlam in Ev. rewrite Ev.
-    eexists. split; [reflexivity |]. cbn. destruct kn as [[[|] k] |]; [discriminate | reflexivity | reflexivity].
+    injection Hwf as Hlam. unfold spline_level_ok in Ev. cbn in Ev. rewrite Hlam in Ev.
+    assert (Hfin : forall kn', validate_simple (SS (mkS f n o lam pen con ba dt b kn' vb)) = Some (SS (mkS f n o lam pen con ba dt b kn' vb))).
+    { intros kn'. unfold validate_simple. cbn. rewrite Hlam. unfold spline_level_ok. cbn. now rewrite Ev. }
+    destruct kn as [[[|] k] |]; unfold build_simple, info_simple.
+    + cbn -[validate_simple vnum_list vostr_list vnums vostrs oz_of_v v_of_oz]. fold (vnums k).
+      rewrite !vnum_list_of, !vostr_list_of, oz_of. cbn -[validate_simple]. rewrite Hfin. eexists. split; reflexivity.
+    + cbn -[validate_simple vnum_list vostr_list vnums vostrs oz_of_v v_of_oz].
+      rewrite !vnum_list_of, !vostr_list_of, oz_of. cbn -[validate_simple]. rewrite Hfin. eexists. split; reflexivity.
+    + cbn -[validate_simple vnum_list vostr_list vnums vostrs oz_of_v v_of_oz].
+      rewrite !vnum_list_of, !vostr_list_of, oz_of. cbn -[validate_simple]. rewrite Hfin. eexists. split; reflexivity.
   - (* factor: rebuilt with the constructor's hidden values (n_splines = 20, no knots) *)
     destruct s as [f n o lam pen con ba dt b kn vb]. unfold guard_simple in Hg. cbn in Hg.
-    apply andb_prop in Hg. destruct Hg as [Hk Hg].
+    apply andb_prop in Hg. destruct Hg as [Hg Hk].
     apply andb_prop in Hg. destruct Hg as [Hg Hcon]. apply andb_prop in Hg. destruct Hg as [Hg Hby].
     apply andb_prop in Hg. destruct Hg as [Hg Hdt]. apply andb_prop in Hg. destruct Hg as [Ho Hba].
     apply Z.eqb_eq in Ho. apply String.eqb_eq in Hba, Hdt. subst.
     destruct b; [discriminate |]. destruct con as [| [c0 |] [| ? ?]]; try discriminate.
-    unfold build_simple, info_simple. cbn -[validate_simple vnum_list vostr_list vnums vostrs].
+    assert (Hke : knots_entry kn = []) by (destruct kn as [[[|] k] |]; [discriminate | reflexivity | reflexivity]).
+    unfold build_simple, info_simple. cbn [s_knots]. rewrite Hke. cbn -[validate_simple vnum_list vostr_list vnums vostrs].
     rewrite vnum_list_of, vostr_list_of. cbn -[validate_simple].
     unfold wf_simple, validate_simple in Hwf. cbn in Hwf.
     match type of Hwf with (if ?c then _ else _) = _ => destruct c eqn:Ev; [| discriminate] end.
@@ -79,7 +85,10 @@ Qed.
 
 Lemma info_simple_type : forall x, exists kvs ty, info_simple x = VList kvs /\ vlookup "term_type" kvs = Some (VStr ty) /\
    String.eqb ty "intercept_term" = false /\ String.eqb ty "tensor_term" = false.
-Proof. destruct x; eexists; eexists; (split; [reflexivity |]); cbn; auto. Qed.
+Proof.
+  destruct x as [l | s | s c]; [| destruct s as [? ? ? ? ? ? ? ? ? kn ?]; destruct kn as [[[|] ?] |] ..];
+    eexists; eexists; (split; [reflexivity |]); cbn; auto.
+Qed.
 
 Theorem info_roundtrip_guarded : forall t, wf_term t -> roundtrip_guard t = true ->
   exists t', build_from_info (info t) = Some t' /\ behav t' = behav t.
@@ -134,8 +143,11 @@ Definition w_knots : term := TS (SS (mkS 0 6 3 [NF 3 (-2)] [Some "auto"] [None] 
 (* a factor term after `termlist.spline_order = 2` (s(0) + f(1)) *)
 Definition w_factor_order : term := TS (SF (mkS 1 20 2 [NF 3 (-2)] [Some "auto"] [None] "ps" "categorical" None None false) "one-hot").
 
-Lemma w_knots_refutes : wf_term w_knots /\ forall t', build_from_info (info w_knots) = Some t' -> behav t' <> behav w_knots.
-Proof. split; [reflexivity |]. intros t' H. vm_compute in H. inversion H; subst. vm_compute. discriminate. Qed.
+(* repaired ("fix: a spline term's info dropped edge knots given by the user"): the former counterexample round-trips exactly,
+   and a term that differs only in its user-given knots is a different term for TermList de-duplication *)
+Lemma w_knots_roundtrips : wf_term w_knots /\ build_from_info (info w_knots) = Some w_knots /\
+  termlist [w_knots; TS (SS w_spline); w_knots] = [w_knots; TS (SS w_spline)].
+Proof. split; [reflexivity |]. split; reflexivity. Qed.
 Lemma w_factor_order_refutes : wf_term w_factor_order /\
   (exists ts, tl_set "spline_order" (VInt 2) [TS (SS w_spline); TS (SF (mkS 1 20 0 [NF 3 (-2)] [Some "auto"] [None] "ps" "categorical" None None false) "one-hot")]
               = (Ok, ts) /\ nth 1 ts (TI false) = w_factor_order) /\
